@@ -344,12 +344,28 @@ fn exec_op(cx: &mut Ctx, t: &[&str]) -> String {
             let va = cx.val(v);
             res(cx.app.sudo(StakingSudo::Slash { validator: va, percentage: Decimal::new(Uint128::new(p)) }.into()))
         }
-        ["advance", n] => {
+        ["advance", n, rest @ ..] if rest.len() <= 2 => {
+            // advance SECS [upd|set [NANOS]]: through App::update_block or App::set_block; NANOS extra nanoseconds
             let Some(n) = num(n) else { return "bad-op".into() };
-            cx.app.update_block(|b| {
-                b.time = b.time.plus_seconds(n as u64);
+            let set = rest.first().map(|m| *m == "set").unwrap_or(false);
+            let nanos = match rest.get(1) {
+                Some(x) => match num(x) {
+                    Some(v) if v < 1_000_000_000 => v as u64,
+                    _ => return "bad-op".into(),
+                },
+                None => 0,
+            };
+            if set {
+                let mut b = cx.app.block_info();
+                b.time = b.time.plus_seconds(n as u64).plus_nanos(nanos);
                 b.height += 1;
-            });
+                cx.app.set_block(b);
+            } else {
+                cx.app.update_block(|b| {
+                    b.time = b.time.plus_seconds(n as u64).plus_nanos(nanos);
+                    b.height += 1;
+                });
+            }
             "ok".into()
         }
         ["q-deleg", a, v] => match cx.q_deleg(a, v) {
@@ -473,15 +489,62 @@ struct Gen<'a> {
     out: Vec<String>,
     unb: u64,
     nvals: usize,
+    /// block time relative to the start: whole seconds and the sub-second part (the default block starts at .879305533)
+    now: (u64, u64),
+    /// payout times (whole second, sub-second part) of the undelegations issued so far
+    pending: Vec<(u64, u64)>,
+    /// sub-second block times are generated in this case
+    subsec: bool,
     /// rough bookkeeping of whole delegated amounts (ignores slashes; only steers choices)
     del: BTreeMap<(usize, usize), u64>,
 }
 
 impl<'a> Gen<'a> {
     fn op(&mut self, s: String) {
+        if s.starts_with("undeleg") {
+            self.pending.push((self.now.0 + self.unb, self.now.1));
+        }
         self.out.push(s);
         self.out.push(format!("obs {} {}", OBS_D, OBS_V));
         self.out.push("sdump".to_string());
+    }
+
+    /// `advance`: through update_block or set_block, sometimes with a sub-second part. Rewards count whole seconds of
+    /// block time (floor differences) while the unbonding queue compares nanoseconds; the one situation in which
+    /// "seconds only" and nanoseconds order a payout differently (same whole second, payout's sub-second part later)
+    /// is avoided by adding a second.
+    fn advance(&mut self, secs: u64) {
+        const NS: u64 = 1_000_000_000;
+        let mode = if self.rng.chance(1, 4) { "set" } else { "upd" };
+        let nanos = if self.subsec && self.rng.chance(1, 2) {
+            match self.rng.below(6) {
+                0 => 1,
+                1 => NS - self.now.1,          // lands exactly on a whole second
+                2 => NS - self.now.1 - 1,      // one nanosecond before it
+                3 => 500_000_000,
+                4 => NS - 1,
+                _ => self.rng.range(1, NS - 1),
+            }
+        } else {
+            0
+        };
+        let nanos = nanos % NS;
+        let mut secs = secs;
+        loop {
+            let f = self.now.1 + nanos;
+            let t = (self.now.0 + secs + f / NS, f % NS);
+            if self.pending.iter().any(|p| p.0 == t.0 && p.1 > t.1) {
+                secs += 1;
+                continue;
+            }
+            self.now = t;
+            break;
+        }
+        if nanos == 0 && mode == "upd" {
+            self.op(format!("advance {}", secs));
+        } else {
+            self.op(format!("advance {} {} {}", secs, mode, nanos));
+        }
     }
 
     fn dv(&mut self) -> (usize, usize) {
@@ -578,7 +641,7 @@ impl<'a> Gen<'a> {
             self.op(format!("slash v{} {}", v + 1, p));
         } else {
             let s = self.secs();
-            self.op(format!("advance {}", s));
+            self.advance(s);
         }
     }
 
@@ -636,7 +699,8 @@ pub fn gen_staking(rng: &mut Rng, thorough: bool) -> Vec<String> {
     let comms: [u128; 7] = [0, 3 * E / 100, E / 10, 333_333_333_333_333_333, 1, E / 10, E];
     let nvals = if thorough || rng.chance(1, 2) { 3 } else { 2 };
     let malformed_case = rng.chance(15, 100);
-    let mut g = Gen { rng, out: vec![], unb, nvals, del: BTreeMap::new() };
+    let subsec = rng.chance(1, 3);
+    let mut g = Gen { rng, out: vec![], unb, nvals, del: BTreeMap::new(), now: (0, 879_305_533), pending: vec![], subsec };
     g.out.push(format!("setup TOKEN {} {}", unb, apr));
     for v in 0..nvals {
         let c = if g.rng.below(40) == 0 { E } else { g.rng.pick(&comms[..6]) };
@@ -671,7 +735,7 @@ pub fn gen_staking(rng: &mut Rng, thorough: bool) -> Vec<String> {
     // a final maturity sweep so that pending unbondings are usually paid inside the case
     if g.rng.chance(1, 2) {
         let u = g.unb;
-        g.op(format!("advance {}", u));
+        g.advance(u);
     }
     // individual queries are exercised too
     let (d, v) = g.dv();
